@@ -16,10 +16,10 @@ import (
 
 func init() {
 	Registry["C01"] = Spec{
-		Fn:     c01,
-		Level:  "exploration",
-		Builds: []string{"default", "purego"},
-		Rule: "cases = (a) every entry of the typed catalogue (real user-facing constructors: every leaf column x {plain, Array, Nullable, LowCardinality, Array(Array), Array(Nullable), Array(LowCardinality), Map(String,T), Map(T,String), Map(String,Array(T)), Map(LowCardinality(T),Array(T))}) x several row counts/value sequences/revisions, (b) seeded random compositions to depth 3 (Array/Nullable/LowCardinality/Map/Tuple, named tuples) through boxed generic composites, (c) LowCardinality dictionaries of 254..257 and 65534..65537 distinct values, (d) strings around 127/128 and 16383/16384 bytes. Each case: EncodeBlock into empty and junk-prefixed buffers, EncodeRawBlock, WriteBlock+Flush (byte equality), reference decode of the bytes, library decode into fresh typed/boxed targets and through Results.Auto() where inferable, exact consumption. Non-trivial = >=1 row and (boundary value or nesting depth >= 1); distinct = hash(type, source kind, rows, revision, value fingerprint, build)",
+		Fn:          c01,
+		Level:       "exploration",
+		Builds:      []string{"default", "purego"},
+		Rule:        "cases = (a) every entry of the typed catalogue (real user-facing constructors: every leaf column x {plain, Array, Nullable, LowCardinality, Array(Array), Array(Nullable), Array(LowCardinality), Map(String,T), Map(T,String), Map(String,Array(T)), Map(LowCardinality(T),Array(T))}) x several row counts/value sequences/revisions, (b) seeded random compositions to depth 3 (Array/Nullable/LowCardinality/Map/Tuple, named tuples) through boxed generic composites, (c) LowCardinality dictionaries of 254..257 and 65534..65537 distinct values, (d) strings around 127/128 and 16383/16384 bytes. Each case: EncodeBlock into empty and junk-prefixed buffers, EncodeRawBlock, WriteBlock+Flush (byte equality), reference decode of the bytes, library decode into fresh typed/boxed targets and through Results.Auto() where inferable, exact consumption. Non-trivial = >=1 row and (boundary value or nesting depth >= 1); distinct = hash(type, source kind, rows, revision, value fingerprint, build)",
 		Assumptions: []string{"the independent reference codec (harness/internal/ref) is the oracle for the wire format; it shares no code with proto/", "LowCardinality(Nullable(T)) dictionary layout is outside the checked space"},
 		MinDistinct: 200,
 	}
